@@ -8,7 +8,7 @@ import Oracle.Util
      E=1: the upstream delivers its last batch together with io.EOF (no difference for the model)
      P: sizes of the successive batches (0 allowed); rows left over form one more batch
    → "ok n=<rows> <row>;<row>…" rows in order, columns sorted, nulls dropped ("-" = row without values),
-     or "panic" (dedup indexes the nil slice of a column the batch does not have) -/
+     [st=<what the processor of a single command remembers afterwards>] -/
 namespace Oracle.C06
 open SigModel.Pipe Oracle
 
@@ -129,20 +129,10 @@ def cmdVals : Cmd → List Val
   | .fillnull v _ => [.str v]
   | _ => []
 
-/-- generic stand-in for xxhash: one bit per distinct value of the case, so that XOR-combinations collide
-exactly when the values occurring an odd number of times agree -/
-def oneHot (univ : List Val) (v : Val) : Nat := 2 ^ (univ.idxOf v)
-
-/-- does some dedup stage of the chain panic on one of the batches it is handed? -/
-def chainPanics (h : Val → Nat) : List Cmd → List Cmd → List Table → Bool
-  | _, [], _ => false
-  | pre, c :: rest, parts =>
-    let here := match c with
-      | .dedup o =>
-        let ins := ((pre.foldl (fun up c => c.stage h up) (Chain.src parts)).read (pre.length + 1)).2
-        ins.any (dedupPanics o)
-      | _ => false
-    here || chainPanics h (pre ++ [c]) rest parts
+/-- collision-free stand-ins for the two xxhash uses: a value's hash is its position among the distinct
+values of the case (+1), the digest of a hash sequence is its positional encoding in a base above every hash -/
+def idxHash (univ : List Val) (v : Val) : Nat := univ.idxOf v + 1
+def posDigest (base : Nat) (l : List Nat) : Nat := l.foldl (fun acc x => acc * base + x) 0
 
 def insertStr (c : String) : List String → List String
   | [] => [c]
@@ -150,7 +140,7 @@ def insertStr (c : String) : List String → List String
 
 /-- what the processor remembers after the run (single command; the harness reads the same from the real
 processor through the overlay hook VerifC06State) -/
-def stateOf (h : Val → Nat) (c : Cmd) (parts : List Table) : String :=
+def stateOf (kf : List Val → Nat) (c : Cmd) (parts : List Table) : String :=
   match c with
   | .head n => s!"sent={runState (headProc n) parts}"
   | .tail n =>
@@ -159,7 +149,7 @@ def stateOf (h : Val → Nat) (c : Cmd) (parts : List Table) : String :=
     s!"fin={fin},eof={if s.eof then 1 else 0}"
   | .scroll n => s!"rem={runState (scrollProc n) parts}"
   | .dedup o =>
-    let s := runState (dedupProc h o) parts
+    let s := runState (dedupProc kf o) parts
     s!"keys={s.length},sum={(s.map (·.2)).foldl (· + ·) 0}"
   | .fillnull v [] =>
     let s := runState (fillAllProc v) parts
@@ -175,11 +165,9 @@ def pipe (args : List String) : String :=
     | some cs, some dense, some _, some sizes, some t =>
       let parts := padBatches dense t (split sizes t)
       let univ := ((t.flatMap (fun r => r.map (·.2))) ++ cs.flatMap cmdVals).eraseDups
-      let h := oneHot univ
-      if chainPanics h [] cs parts then "panic"
-      else
-        let st := match cs with | [c] => " st=" ++ stateOf h c parts | _ => ""
-        showTable (runChain h cs parts) ++ st
+      let kf := digestKey (idxHash univ) (posDigest (univ.length + 2))
+      let st := match cs with | [c] => " st=" ++ stateOf kf c parts | _ => ""
+      showTable (runChain kf cs parts) ++ st
     | _, _, _, _, _ => "bad-op"
   | _ => "bad-op"
 
